@@ -49,6 +49,7 @@ type Obligation struct {
 	Cut     int // number of script lines visible
 	Pos     string
 	Abstracted bool
+	Alts    []*Obligation // a case split of this obligation: all of them together imply it
 	enc     *FnEnc
 }
 
